@@ -5,10 +5,10 @@ Import ListNotations.
 Open Scope string_scope.
 
 Theorem reset_covers_all_classes :
-  registry_table_ok class_skeletons registry derived_attrs registry_excused = true.
+  registry_table_ok class_skeletons registry (derived_attrs ++ reset_assigned) registry_excused_reset = true.
 Proof. vm_compute. reflexivity. Qed.
 
-Theorem reset_excuses_are_live : registry_excuses_live registry derived_attrs registry_excused = true.
+Theorem reset_excuses_are_live : registry_excuses_live registry (derived_attrs ++ reset_assigned) registry_excused_reset = true.
 Proof. vm_compute. reflexivity. Qed.
 
 Print Assumptions reset_covers_all_classes.
